@@ -11,14 +11,15 @@ for m in metas:
     rows.append("| %s | %s | %s |" % (m["id"], m["what"].replace("|", "/"), "silent" if m["silent"] else fired))
 text = """### 0.8 Robustness probes: behaviour-preserving refactorings (what the checks do on code where the property still holds)
 
-The seeded changes measure detection. To measure the other side — *never raise an alarm on code where the property holds* — fifteen more
+The seeded changes measure detection. To measure the other side — *never raise an alarm on code where the property holds* — twenty more
 sub-agents (property text + worktree only) were each asked for three realistic **behaviour-preserving** refactorings of the code their
 property is anchored in (extract / inline a helper, loop <-> iterator chain, `match` <-> `if let` / `let else`, merged match arms, local
 closures, code motion). Each agent compared the tool's outputs byte for byte before and after on hundreds to thousands of runs (shipped examples
 under all flag combinations plus hand-written and random inputs); I re-ran the pinned tests. The %d patches are kept in `probes/<id>/` and
 are negative controls (`R-<id>`) of the self-test.
 
-**First run: 28 of the first 30 refactorings (and 12 of the 15 written later for C10, C11, C14, C17, C20) made at least one check fail** (almost all as template mismatches or fail-closed analysis gaps). That
+**First runs: 28 of the first 30 refactorings, 12 of the next 15 (C10, C11, C14, C17, C20) and 12 of the last 15 (C12, C15, C16, C18, C19) made at
+least one check fail** (almost all as template mismatches or fail-closed analysis gaps). That
 is the honest weakness of this family of technique as I built it: the extracted templates are tied to the shape of the constructors.
 I then removed the causes that were generic rather than specific to one probe:
 
@@ -47,12 +48,28 @@ I then removed the causes that were generic rather than specific to one probe:
 * **Helpers grafted into HIR-level rules.** For the rules that walk the HIR rather than evaluate it, the body of a later-extracted helper
   is attached to each of its call sites (`facts._graft_helpers`), `?`-propagation is followed through block tails and helper returns, and
   field initialisers are followed through named locals (`hq.walk_through_locals`).
+* **Specialisation on concrete inputs, everywhere a function dispatches.** Beyond single constructors: `Formula::substitute`, the three
+  term substitutions (every constructor x every sort of the variable x every constructor of the replacement), `inductive_lemma` (the accepted
+  shape and one representative of every way to miss it), `extend_quantifier_scope` (side x connective), `evaluate_comparisons` (one guard
+  per relation), `natural_comparison` (relation x shape of the right side), `break_equivalences_formula` (node kind), `subsort` (9 pairs),
+  the routing of external equivalence (the task's side is the *singleton list* `[F]` for each role x direction x break flag; the buckets
+  are read off the assembled task). `Formula <-> UnboxedFormula` conversions, `if let` / `let else` / or-patterns / indexing of literal
+  lists are decided on such inputs, conditionals are lifted out of constructors (`Some(if c {a} else {b})` = `if c {Some(a)} else {Some(b)}`).
+* **Loops by a shift argument.** `apply_fixpoint` is checked by one symbolic iteration: every exit needs `x == x.apply(f)` and yields `x` or
+  `x.apply(f)`; the state after the iteration is the initial state with `self := self.apply(f)`. `while`, `loop` + `return`, one or two
+  state variables are the same to it.
+* **Parameterised helpers read like the code they were extracted from.** When a later-extracted helper is attached to a call site, literal
+  arguments, plain locals and field paths are substituted for its parameters and literal names are folded into its `format!` templates
+  (`implication_problem("forward", .., ("left", left.clone()), ..)`); rules that collect callees expand helpers; `?` is followed through
+  block tails, match arms, `if` branches and helper returns.
 * **Parenthesisation decided from path conditions.** The writes of an operand are found by their argument, and the (parent, child) row
   decides which write is reached; `a || b < c`, a three-way `cmp` match, locals and an extracted `fmt_operand` helper are all the same to it.
 
 After these changes **%d of the %d probes are silent on all 20 checks**; the other %d still fail at least one check although the property
-holds. They are listed below as *known fail-closed cases*: restructurings beyond the idioms the extractors know (in-place mutation through
-`&mut` in a helper, `let else`, builder chains moved into helpers, HIR-level graph / sequencing rules on a function whose body moved).
+holds. They are listed below as *known fail-closed cases*: restructurings that need algebraic knowledge the extractors do not have
+(`!a.is_subset(b)` for `a.difference(b).next().is_some()`, `collect::<Option<Vec<_>>>()` for "no element is None", the map `entry` API
+for `or_default`, a `find` over a filtered iterator for a loop with an early `return Err`), or a whole template function split into several
+helpers at once (completion).
 A failing check on such an edit reports an `ANALYSIS-GAP` or a template mismatch naming the function; it is the one known way these
 checks can fail on code where the property still holds, and the reason is in the report.
 
